@@ -4,13 +4,13 @@ import json, os, subprocess
 ROOT = os.path.dirname(os.path.dirname(os.path.abspath(__file__)))
 
 NOTES = {
- "C01": ("refinement theorem `C01.refines_map`: for every history of Insert/Delete/Search and every key transformation with prefix-free inserted keys, the tree model returns exactly what the ideal map returns and denotes exactly its state (induction over the history from `insert_spec`, `deleteNode_spec`, `search_sound/complete`); tied to the code by structural + observable correspondence on generated histories of all six kinds and all key types",
+ "C01": ("refinement theorem `C01.refines_map`: for every history of Insert/Delete/Search and every key transformation with prefix-free inserted keys, the tree model returns exactly what the ideal map returns and denotes exactly its state (induction over the history from `insert_spec`, `deleteNode_spec`, `search_sound/complete`); tied to the code by structural + observable correspondence on generated histories of all six kinds and all key types; `C01Loops.checkPrefix_spec`, `prefixMismatch_spec`: the Go helpers `(*node).checkPrefix` and `prefixMismatch`, regenerated statement by statement from tree.go on every run (`Gen/Loops.lean`), return the model's `checkPrefixOk` / `T.prefixMismatch` values and never index out of range",
          "model of trees.go/collation.go/tree.go/node.go hand-written, tied by correspondence only on generated inputs; keys containing 0x00 in byte-string trees are outside the contract (known finding D3)", "DESIGN §5 C01"),
  "C02": ("`all_eq_items`, `backward_eq_reverse` (explicit-stack loops = early-exit fold over the in-order leaves), `items_strictly_sorted`, `items_complete`, `lexLt_terminated` (order of terminated byte strings = bytewise order of the originals); numeric orders via C07; `C02Raw.raw_all_after_history`: the same for the tree of RAW node records – `all()`/`backward()` with the per-class loops of tree.go (lanes below childrenLen, the 256 index bytes of a node48, the 256 slots of a node256) never pop a nil reference and hand the consumer exactly Layer T's items, after any history",
          "collator order = byte order of collate.Key (x/text contract); correspondence on generated histories", "DESIGN §5 C02"),
- "C03": ("`range_eq_filter`, `rangeNum_eq_filter`, `rangeOpen_eq_filter`, `range_empty`: the pruned scan with per-entry depth equals the filter of the sorted content by the inclusive bounds, for both bound orders, equal bounds, open end, empty tree; `C03Raw.raw_range_after_history`: `rangeScan` over raw node records (per-class loops, raw header) is that filter after any history",
+ "C03": ("`range_eq_filter`, `rangeNum_eq_filter`, `rangeOpen_eq_filter`, `range_empty`: the pruned scan with per-entry depth equals the filter of the sorted content by the inclusive bounds, for both bound orders, equal bounds, open end, empty tree; `C03Raw.raw_range_after_history`: `rangeScan` over raw node records (per-class loops, raw header) is that filter after any history; `C03Loops.longestCommonPrefix_spec`: the regenerated Go `longestCommonPrefix` is the model's `lcpLen`",
          "bounds carved out by the property (NaN, (-0,+0), empty end with start above the maximum) are not generated; collation trees excluded", "DESIGN §5 C03"),
- "C04": ("`prefix_eq_filter` via `lcp_spec` (the subtree selected by the descent contains every key starting with p), `prefixColl_eq_filter`; `C04Raw.raw_prefix_after_history`: `lowestCommonParent` through `Raw.find` + `filter` over raw node records is that filter after any history", "collation Prefix (as repaired) filters the whole tree", "DESIGN §5 C04"),
+ "C04": ("`prefix_eq_filter` via `lcp_spec` (the subtree selected by the descent contains every key starting with p), `prefixColl_eq_filter`; `C04Raw.raw_prefix_after_history`: `lowestCommonParent` through `Raw.find` + `filter` over raw node records is that filter after any history; `C04Loops.prefixMismatch_spec`: the regenerated Go `prefixMismatch` is the model's for every prefix argument", "collation Prefix (as repaired) filters the whole tree", "DESIGN §5 C04"),
  "C05": ("`minimum_eq_head`, `maximum_eq_last`, `bottomK_eq_take`, `topK_eq_take_reverse` for every n; `C05Raw.minimum_is_least` / `maximum_is_greatest`: the per-class walks of minimum()/maximum() over raw nodes (children[0], children[childrenLen-1], the node48/node256 scans) reach the least / greatest stored key; `C05RawSeq.raw_topK_bottomK_after_history`: TopK/BottomK through the raw `backward`/`all` loops", "same tie as C02; the real minimum()/maximum() are also followed node by node in the bare-node correspondence", "DESIGN §5 C05, §10.2"),
  "C06": ("`size_eq_card` (conjunct of the invariant preserved by every step), `insert_size`, `delete_size`", "same tie as C01", "DESIGN §5 C06"),
  "C07": ("`encU/encI/encF*_lt_iff`, `dec*_enc*`, `*_length`, `enc*_eq_iff`, `concat_lex` for all widths; float word lemmas at 32/64 bits by bv_decide; `C07Gen.*_ok`: the same statements (fixed length, round trip, order isomorphism, injectivity, NaN collapse) for the fourteen clauses of keys.go's Transform/Restore type switches as *regenerated on every run* into `Gen/Keys.lean` by the translator (so an edit of a constant, operator or branch of keys.go breaks a proof obligation whether or not a sample hits it)",
